@@ -525,6 +525,7 @@ impl<'a, F: Field> Sub<&'a SparsePolynomial<F>> for &DensePolynomial<F> {
                 }
             }
             result.coeffs.extend(upper_coeffs);
+            result.truncate_leading_zeros();
             result
         }
     }
